@@ -16,6 +16,10 @@ pub fn build(family: &str, rng: &mut Rng, index: u64) -> Option<Plan> {
 		"F2s" => f2s(index),
 		"F6k" => f6k(index),
 		"F4" => Some(f4(rng, index)),
+		"F4g" => f4g(index),
+		"F4c" => f4c(index),
+		"F1o" => f1o(index),
+		"F1s" => f1s(index),
 		// issuance swarm: standard hooks (C01/C04/C05/C13) and generated hook tables (C10)
 		"F1" => Some(super::f1::build(rng, &super::f1::F1Opts { max_certs: 3, max_ids: 8, generated_hooks: false, hard_hook_failures: false, owners: true, eab: true, allow_rsa4096: index % 97 == 0 })),
 		"F6" => Some(super::f6::random(rng)),
@@ -659,5 +663,96 @@ fn f6k(index: u64) -> Option<Plan> {
 		p.ops.push(Op::Run { attempts: 2, max_virtual_s: 6000, only: vec![0] });
 	}
 	p.note = format!("F6k roll-over {} -> {}", a, b);
+	Some(p)
+}
+
+/// F4g: exhaustive boundary grid for the renewal date: certificate lifetime L in {1 h, 1 d, 90 d} x
+/// renew_delay in {0, 1 s, L - 1 s, L, L + 1 s, 10 L} x random_early_renew in {absent, 0, 1 s, L/2,
+/// L, 10 L} x jitter source {min, max, seeded}: one issuance, then two renewals are observed.
+fn f4g(index: u64) -> Option<Plan> {
+	let lifes = [3600u64, 86_400, 90 * 86_400];
+	let g = grid(index, &[3, 6, 6, 3])?;
+	let l = lifes[g[0] as usize];
+	let rd = [0, 1, l - 1, l, l + 1, 10 * l][g[1] as usize];
+	let rer: Option<u64> = [None, Some(0), Some(1), Some(l / 2), Some(l), Some(10 * l)][g[2] as usize];
+	let mut rng = Rng::new(0xF46 ^ index);
+	let mut p = simple_plan(&mut rng, 1);
+	p.config.certificates[0].renew_delay = Some(format!("{}s", rd));
+	p.config.certificates[0].random_early_renew = rer.map(|r| format!("{}s", r));
+	p.cas[0].knobs.lifetime_s = vec![l as i64];
+	p.sched.jitter = ["min", "max", "seeded"][g[3] as usize].into();
+	p.sched.net_us = (100, 2000);
+	p.ops = vec![Op::Run { attempts: 3, max_virtual_s: 3 * l + 100_000, only: vec![] }];
+	p.note = format!("F4g lifetime {} s renew_delay {} s random_early_renew {:?} jitter {}", l, rd, rer, p.sched.jitter);
+	Some(p)
+}
+
+/// F4c: every ordered pair of chain lengths 1..4 x 3 key families: two successive issuances of
+/// one certificate (the second over the first), kp_reuse off.
+fn f4c(index: u64) -> Option<Plan> {
+	let g = grid(index, &[4, 4, 3])?;
+	let mut rng = Rng::new(0xF4C ^ index);
+	let mut p = simple_plan(&mut rng, 1);
+	p.config.certificates[0].key_type = Some(["ecdsa-p256", "ed25519", "rsa2048"][g[2] as usize].into());
+	p.config.certificates[0].kp_reuse = Some(false);
+	p.cas[0].knobs.chain_len = vec![g[0] as u32 + 1, g[1] as u32 + 1];
+	p.cas[0].knobs.lifetime_s = vec![3600];
+	p.ops = vec![Op::Run { attempts: 2, max_virtual_s: 20_000, only: vec![] }];
+	p.note = format!("F4c chain {} then {} key {}", g[0] + 1, g[1] + 1, p.config.certificates[0].key_type.clone().unwrap());
+	Some(p)
+}
+
+/// F1o: presence/absence of each of the six mode/owner options (2^6) x 4 umasks on one base plan,
+/// first issuance and one renewal (create and rewrite).
+fn f1o(index: u64) -> Option<Plan> {
+	let g = grid(index, &[64, 4])?;
+	let mut rng = Rng::new(0xF10 ^ index);
+	let mut p = simple_plan(&mut rng, 1);
+	let bits = g[0];
+	let gl = &mut p.config.global;
+	if bits & 1 != 0 {
+		gl.cert_file_mode = Some([0o640u32, 0o600, 0o664, 0o444][(index % 4) as usize]);
+	}
+	if bits & 2 != 0 {
+		gl.pk_file_mode = Some([0o640u32, 0o400, 0o660, 0o604][(index % 4) as usize]);
+	}
+	if bits & 4 != 0 {
+		gl.cert_file_user = Some(["daemon", "1", "nobody", "65534"][(index % 4) as usize].into());
+	}
+	if bits & 8 != 0 {
+		gl.cert_file_group = Some(["daemon", "65534", "nogroup", "1"][(index % 4) as usize].into());
+	}
+	if bits & 16 != 0 {
+		gl.pk_file_user = Some(["nobody", "65534", "daemon", "1"][(index % 4) as usize].into());
+	}
+	if bits & 32 != 0 {
+		gl.pk_file_group = Some(["nogroup", "1", "daemon", "65534"][(index % 4) as usize].into());
+	}
+	p.world.umask = [0o022u32, 0o077, 0o027, 0o000][g[1] as usize];
+	p.cas[0].knobs.lifetime_s = vec![3600];
+	p.ops = vec![Op::Run { attempts: 2, max_virtual_s: 20_000, only: vec![] }];
+	p.note = format!("F1o options {:06b} umask {:o}", bits, p.world.umask);
+	Some(p)
+}
+
+/// F1s: every subset of the 15 subject attributes (2^15 plans), one certificate, cycling key type
+/// and digest.
+fn f1s(index: u64) -> Option<Plan> {
+	if index >= 1 << 15 {
+		return None;
+	}
+	let mut rng = Rng::new(0xF15 ^ index);
+	let mut p = simple_plan(&mut rng, 1);
+	let c = &mut p.config.certificates[0];
+	for (i, k) in super::f1::SUBJECT_KEYS.iter().enumerate() {
+		if index & (1 << i) != 0 {
+			let v = if *k == "country_name" { "FR".to_string() } else if *k == "pkcs9_email_address" { "a@example.org".to_string() } else { format!("v{} {}", i, index % 97) };
+			c.subject_attributes.insert(k.to_string(), v);
+		}
+	}
+	c.key_type = Some(CHEAP_KEY_TYPES[(index % 5) as usize].to_string());
+	c.csr_digest = Some(["sha256", "sha384", "sha512"][(index % 3) as usize].to_string());
+	p.sched.net_us = (100, 500);
+	p.note = format!("F1s subject attribute subset {:015b}", index);
 	Some(p)
 }
